@@ -26,4 +26,96 @@ func init() {
 		},
 		OutsideClaim: []string{"replica counts above the bound", "more delete slots than the bound", "map iteration orders other than insertion order"},
 	})
+
+	ctlStubs := map[string]string{
+		pkgCtl + ".getPatch":      "vGetPatchModel",
+		pkgCtl + ".ApplyRevision": "vApplyRevisionModel",
+	}
+	stepBounds := func(a []int) string {
+		return fmt.Sprintf("one UpdateStatefulSet from a snapshot with <=%d pods at distinct ordinals of [0,%d], replicas in [0,%d], <=%d delete slots with values in [0,%d], options=%#x", a[0], a[1]+a[2], a[1], a[2], a[1]+a[2], a[3])
+	}
+	const (
+		oPolicyOrdered = 1 << iota
+		oPolicyParallel
+		oNoRollout
+		oDeleting
+		oLeanPods
+		oRollingOnly
+		oFaults
+		oThreeRevs
+		oStatusSym
+	)
+	const (
+		mC03 = 1 << iota
+		mC04
+		mC05
+		mC07
+		mC12
+		mC14
+	)
+	step := func(name string, q, t []int, asserts, covers []string) runSpec {
+		return runSpec{Name: name, Pkg: pkgCtl, Func: "VH_Step", Quick: q, Thorough: t, Bounds: stepBounds, Asserts: asserts, Covers: covers}
+	}
+	stepAssume := []string{
+		"pods of the snapshot carry canonical names, matching labels and this set as controller (ownership is C10)",
+		"pod phase is one of Pending/Running/Succeeded/Failed (the API server never stores an empty phase)",
+		"getPatch/ApplyRevision are replaced by models during symbolic execution (the real codecs run in the native replay)",
+		"delete-slot values lie in [0,R+K] here; negative and extreme values are decided in C01",
+	}
+	stepOutside := []string{"more pods, replicas or slots than the bound", "API faults unless stated (C09)", "pods with foreign owners or odd names (C10, C15)"}
+	register(&spec{
+		ID: "C03", Title: "Only pods that must go are ever deleted",
+		Runs: []runSpec{
+			step("step", []int{1, 2, 1, oThreeRevs, mC03}, []int{2, 2, 1, oThreeRevs, mC03},
+				[]string{"every delete has a reason", "live up-to-date desired pod never deleted"},
+				[]string{"scale-in delete", "failed pod replaced", "update delete"}),
+		},
+		Stubs: ctlStubs, Assumptions: stepAssume, OutsideClaim: stepOutside,
+	})
+	register(&spec{
+		ID: "C04", Title: "Pods are created only at vacant desired ordinals",
+		Runs: []runSpec{
+			step("step", []int{1, 2, 1, oThreeRevs | oDeleting, mC04}, []int{2, 2, 1, oThreeRevs | oDeleting, mC04},
+				[]string{"created ordinal is desired", "created ordinal is not a delete slot", "no create for a set being deleted"},
+				[]string{"vacant ordinal filled", "finished pod re-created"}),
+		},
+		Stubs: ctlStubs, Assumptions: stepAssume, OutsideClaim: stepOutside,
+	})
+	register(&spec{
+		ID: "C05", Title: "OrderedReady: one pod at a time, predecessors healthy, scale-in from the top",
+		Runs: []runSpec{
+			step("step", []int{2, 2, 1, oPolicyOrdered, mC05}, []int{3, 2, 1, oPolicyOrdered, mC05},
+				[]string{"at most one ordinal is created or deleted per reconcile"},
+				[]string{"ordered create", "ordered scale-in delete", "ordered update delete"}),
+		},
+		Stubs: ctlStubs, Assumptions: stepAssume, OutsideClaim: stepOutside,
+	})
+	register(&spec{
+		ID: "C07", Title: "Rolling update honours partition, goes highest-first; OnDelete never restarts",
+		Runs: []runSpec{
+			step("step", []int{1, 2, 1, oThreeRevs, mC07}, []int{2, 2, 1, oThreeRevs, mC07},
+				[]string{"at most one pod is deleted for update per reconcile", "no update delete below the partition"},
+				[]string{"update delete seen", "create with a partition"}),
+		},
+		Stubs: ctlStubs, Assumptions: stepAssume,
+		OutsideClaim: append([]string{"creation revision when the rollingUpdate block is absent (legacy status.currentReplicas rule; the statement's partition is then undefined)"}, stepOutside...),
+	})
+	register(&spec{
+		ID: "C12", Title: "Status tells the truth",
+		Runs: []runSpec{
+			step("step", []int{1, 2, 1, oThreeRevs | oStatusSym, mC12}, []int{2, 2, 1, oThreeRevs | oStatusSym, mC12},
+				[]string{"0 <= currentReplicas <= replicas", "observedGeneration is the generation reconciled"},
+				[]string{"status written", "currentRevision advanced", "quiescent reconcile with a status write"}),
+		},
+		Stubs: ctlStubs, Assumptions: stepAssume, OutsideClaim: stepOutside,
+	})
+	register(&spec{
+		ID: "C14", Title: "Parallel policy never waits on other pods when scaling",
+		Runs: []runSpec{
+			step("step", []int{2, 2, 1, oPolicyParallel | oThreeRevs, mC14}, []int{3, 2, 1, oPolicyParallel | oThreeRevs, mC14},
+				[]string{"every vacant desired ordinal is created in the same reconcile", "every live pod outside the desired set is deleted in the same reconcile"},
+				[]string{"parallel reconcile checked"}),
+		},
+		Stubs: ctlStubs, Assumptions: stepAssume, OutsideClaim: stepOutside,
+	})
 }
